@@ -182,7 +182,7 @@ Definition agrees (c : case) : bool :=
   let fwd := rev (s_fwd s) in
   let n := length fwd in
   all2 resp_matches (rev (s_del s)) (h_cresps c) &&
-  Bool.eqb (s_broken s) (h_cgarbage c) &&
+  negb (h_cgarbage c) &&
   all2 ev_matches fwd (h_events c) &&
   match partial_forward s e with
   | None =>
@@ -200,17 +200,24 @@ Definition mismatches (cs : list case) : list N := map h_id (filter (fun c => ne
 
 Definition SIG_REQUEST_LOST := 1%N.          (* a lock-step request did not reach the backend *)
 Definition SIG_PIPELINED_LOST := 2%N.        (* a request written before the previous reply arrived did not reach the backend *)
-Definition SIG_UA_ADDED := 3%N.              (* backend saw a User-Agent the client never sent (or lost an empty one) - nothing else differs *)
+Definition SIG_UA_ADDED := 3%N.              (* backend saw net/http's own User-Agent on a request that had none - nothing else differs (repaired: c6a9515) *)
 Definition SIG_REQUEST_CHANGED := 4%N.
 Definition SIG_REPLY_LOST := 5%N.
 Definition SIG_REPLY_CHANGED := 6%N.
-Definition SIG_STRAY_AFTER_HEAD := 7%N.      (* reply to HEAD with Transfer-Encoding: chunked: stray bytes follow it *)
+Definition SIG_STRAY_AFTER_HEAD := 7%N.      (* reply to HEAD with Transfer-Encoding: chunked: stray bytes follow it (repaired: 5ae535b) *)
 Definition SIG_CLIENT_GARBAGE := 8%N.
 Definition SIG_EVENT := 9%N.                 (* not exactly one attributed event per relayed request, or its fields/payload differ *)
 Definition SIG_BACKEND_GARBAGE := 10%N.
 Definition SIG_PEERS := 11%N.
 Definition SIG_UNREQUESTED := 12%N.          (* the backend received a request the client did not send *)
 Definition SIG_CC_ADDED := 13%N.             (* "Cache-Control: no-cache" added to a message that only had "Pragma: no-cache" *)
+
+(* how the former defects showed, kept so that a regression is reported under its own name *)
+Definition ua_fix (hs : list header) : list header :=
+  match hget S_UA hs with None => (S_UA, S_GOUA) :: hs | Some _ => hs end.
+Definition stray_after (to_head : bool) (p : sem_resp) : bool := to_head && p_chunked p.
+Definition old_reser_req (m : sem_req) : sem_req :=
+  mkReq (r_method m) (r_target m) (r_host m) (sort_headers (ua_fix (pragma_fix (r_headers m)))) (r_chunked m) (r_body m).
 
 Definition added_sigs (hs : list header) : list N :=
   (if eqb_headers (ua_fix hs) hs then [] else [SIG_UA_ADDED]) ++
@@ -273,7 +280,8 @@ Fixpoint walk (ls wf : bool) (reqs : list sem_req) (reps : list (bytes * list N)
       | q :: breqs' =>
           let s1 :=
             if req_matches (spec_headers m) q then []
-            else if req_matches (reser_req m) q then added_sigs (r_headers m)
+            else if req_matches (reser_req m) q then [SIG_CC_ADDED]
+            else if req_matches (old_reser_req m) q then added_sigs (r_headers m)
             else [if ls then SIG_REQUEST_CHANGED else SIG_PIPELINED_LOST] in   (* a reader that starts inside a pipelined request forwards a mangled one *)
           let raw := match reps with r :: _ => fst r | [] => default_resp end in
           match intended_reply (is_head m) raw with
@@ -347,24 +355,45 @@ Record case := mkR {
   w_kind : conn_kind;          (* concrete type of the connection Handle was given *)
   w_segs : list bytes;         (* the client's writes (datagram services: one datagram) *)
   w_reply : list bytes;        (* the backend's reply writes (datagram: at most one) *)
-  w_parses : bool;             (* oracle (miekg/dns): the datagram unpacks as a DNS message *)
+  w_parses_l : list bool;      (* oracle (miekg/dns): [b] = the datagram unpacks as a DNS message; for dns-proxy over a
+                                  stream the j-th element says whether the client's first j writes together do *)
   o_dials : N;                 (* observed: connections the backend saw *)
   o_backend : bytes;           (* observed: everything the backend received *)
   o_client : bytes;            (* observed: everything the client received *)
   o_events : N                 (* observed: events of the service's category *)
 }.
 
-Definition model (c : case) : raw_out :=
+Definition w_parses (c : case) : bool := match w_parses_l c with b :: _ => b | [] => false end.
+
+(* dns-proxy over a stream does one Read of the client: how many of the client's writes
+   that Read returned together (j) is kernel timing, as is how much of the answer its
+   single Read of the backend returned: both are taken from the observation *)
+Definition model_j (c : case) (j : nat) : raw_out :=
   match w_svc c with
   | SCopy => copy_model (w_kind c) (w_segs c) (w_reply c)
-  | SDns => dns_model (w_kind c) (concat (w_segs c)) (w_parses c)
-                      (match w_reply c with [] => None | r :: _ => Some r end)
+  | SDns =>
+      match type_switch (w_kind c) with
+      | BTcp => dns_model (w_kind c) [concat (firstn j (w_segs c))] (nth (j - 1) (w_parses_l c) false)
+                          (w_reply c) (length (o_client c))
+      | _ => dns_model (w_kind c) (w_segs c) (w_parses c) (w_reply c) 0
+      end
   end.
 
-Definition agrees (c : case) : bool :=
-  let m := model c in
+Definition agrees_j (c : case) (j : nat) : bool :=
+  let m := model_j c j in
   (w_dials m =? o_dials c)%N && eqb_bytes (concat (w_backend m)) (o_backend c) &&
-  eqb_bytes (concat (w_client m)) (o_client c) && (w_events m =? o_events c)%N.
+  eqb_bytes (concat (w_client m)) (o_client c) && (w_events m =? o_events c)%N &&
+  (* a Read of a non-empty reply returns at least one byte *)
+  (match w_svc c, type_switch (w_kind c), w_backend m with
+   | SDns, BTcp, _ :: _ => match concat (w_reply c), o_client c with _ :: _, [] => false | _, _ => true end
+   | _, _, _ => true
+   end).
+
+Definition agrees (c : case) : bool :=
+  match w_svc c, type_switch (w_kind c) with
+  | SDns, BTcp => existsb (agrees_j c) (seq 1 (length (w_segs c)))
+  | _, _ => agrees_j c 1
+  end.
 
 Definition mismatches (cs : list case) : list N := map w_id (filter (fun c => negb (agrees c)) cs).
 
@@ -374,6 +403,8 @@ Definition SIG_CHANGED := 3%N.          (* relayed bytes differ from what was se
 Definition SIG_EVENT := 4%N.            (* relayed, but not exactly one event *)
 Definition SIG_DIALS := 5%N.            (* more than one backend connection for one client connection *)
 Definition SIG_DNS_NO_EVENT := 6%N.     (* dns-proxy relayed a datagram that is not a DNS message without recording it *)
+Definition SIG_DNS_TCP := 7%N.          (* dns-proxy over a stream: one Read each way - a query in several writes (or with the
+                                           RFC 1035 length prefix) is not relayed, a long reply is cut *)
 
 Definition wrapped (k : conn_kind) : bool := match k with KTimeout _ => true | _ => false end.
 
@@ -381,14 +412,16 @@ Definition wrapped (k : conn_kind) : bool := match k with KTimeout _ => true | _
    reply, one event per relayed exchange, one backend connection *)
 Definition case_sigs (c : case) : list N :=
   let sent := concat (w_segs c) in
-  let reply := match w_svc c with
-               | SCopy => concat (w_reply c)
-               | SDns => match w_reply c with r :: _ => r | [] => [] end
-               end in
+  let datagram := match local_kind (w_kind c) with AUdp => true | _ => false end in
+  let reply := if datagram then concat (first_of (w_reply c)) else concat (w_reply c) in
+  let dns_tcp := match w_svc c, local_kind (w_kind c) with SDns, ATcp => true | _, _ => false end in
   match sent with
   | [] => []
   | _ =>
-      if match o_backend c with [] => true | _ => false end then
+      if dns_tcp then
+        if eqb_bytes (o_backend c) sent && eqb_bytes (o_client c) reply && (o_events c =? 1)%N && (o_dials c =? 1)%N
+        then [] else [SIG_DNS_TCP]
+      else if match o_backend c with [] => true | _ => false end then
         [if wrapped (w_kind c)
          then (match w_svc c with SCopy => SIG_COPY_NOTHING | SDns => SIG_DNS_NOTHING end)
          else SIG_CHANGED]
@@ -477,8 +510,10 @@ Definition agrees (c : case) : bool :=
   if ok then
     let relayed := ssh_relay (client_msgs c) [] in
     eqb_list eqb_smsg (reqs_of relayed) (o_breqs c) && eqb_bytes (data_of relayed) (o_bdata c) &&
-    is_prefix (o_cdata c) (concat (z_reply c)) &&            (* = relay_until_close for some schedule *)
-    prefix_list Bool.eqb (o_replies c) (want_replies (z_reqs c)) &&   (* an early close also cuts the replies short *)
+    eqb_bytes (o_cdata c) (relay_until_close (z_reply c) []) &&
+    (* the reply to a request that the backend answers just before it closes the channel can
+       lose the race against the close (what the client was told is a prefix) - timing, from the observation *)
+    prefix_list Bool.eqb (o_replies c) (want_replies (z_reqs c)) &&
     eqb_list eqb_bytes (req_types (z_reqs c)) (o_evreqs c) && (o_evchan c =? 1)%N && (o_evsess c =? 1)%N &&
     (if z_texty c && eqb_bytes (o_cdata c) (concat (z_reply c)) then eqb_bytes (o_rec c) (sanitize (concat (z_reply c))) else true)
   else
@@ -496,7 +531,8 @@ Definition SIG_DOWN := 4%N.
 Definition SIG_EVENT := 5%N.
 Definition SIG_CONNS := 6%N.
 Definition SIG_STATUS := 7%N.
-Definition SIG_TRUNCATED := 8%N.      (* the client received only a proper prefix of the backend's channel data *)
+Definition SIG_REPLY_RACE := 9%N.     (* the client was never told the outcome of a request the backend answered right before closing the channel *)
+Definition SIG_TRUNCATED := 8%N.      (* the client received only a proper prefix of the backend's channel data / request replies (repaired: fc51d79) *)
 
 (* the property on the observation: the backend sees the presented credentials, attempt
    by attempt, until it accepts one; then requests and data as sent, the backend's data
@@ -517,7 +553,7 @@ Definition case_sigs (c : case) : list N :=
         ++ (if eqb_bytes (o_cdata c) (concat (z_reply c)) then []
             else if is_prefix (o_cdata c) (concat (z_reply c)) then [SIG_TRUNCATED] else [SIG_DOWN])
         ++ (if eqb_list Bool.eqb (want_replies (z_reqs c)) (o_replies c) then []
-            else if prefix_list Bool.eqb (o_replies c) (want_replies (z_reqs c)) then [SIG_TRUNCATED] else [SIG_STATUS])
+            else if prefix_list Bool.eqb (o_replies c) (want_replies (z_reqs c)) then [SIG_REPLY_RACE] else [SIG_STATUS])
         ++ (if eqb_list eqb_bytes (req_types (o_breqs c)) (o_evreqs c) && (o_evchan c =? 1)%N && (o_evsess c =? 1)%N
             then [] else [SIG_EVENT])
       else []).
